@@ -10,6 +10,7 @@ mod scen;
 mod textgen;
 
 mod mon_c01;
+mod mon_c02;
 
 use report::Report;
 use std::time::Instant;
@@ -106,6 +107,7 @@ fn main() {
     rep.tier = if ctx.quick() { "quick".to_string() } else { "thorough".to_string() };
     match ctx.prop.as_str() {
         "C01" => mon_c01::run(&ctx, &mut rep),
+        "C02" => mon_c02::run(&ctx, &mut rep),
         other => {
             eprintln!("unknown property {}", other);
             std::process::exit(3);
